@@ -737,33 +737,6 @@ def run_concurrent(case):
                 seq[0] += 1
                 events[i] = (start, seq[0], res)
 
-            # Every write to the cache dict is watched: a result made by a BACKGROUND re-preparer may only ever
-            # replace the result of the same version; if it is stored under another version than the key holds at
-            # that moment (or for a key that is absent), a re-prepare wrote back a stale entry.  (Best effort: if
-            # the private dict cannot be wrapped, nothing is attributed.)
-            stale = []
-            saved_dict = None
-            try:
-                raw = getattr(r.cache, "__CACHE")
-
-                class Watched(type(raw)):
-                    def __setitem__(self, key, entry):
-                        try:
-                            ident = r.ident(entry.resource)
-                            old = self.get(key)
-                            if (ident[0] in ("ok", "err") and ident[1] < len(r.background) and r.background[ident[1]]
-                                    and (old is None or old.resource_version != entry.resource_version)):
-                                stale.append([str(getattr(key, "name", key)),
-                                              None if old is None else old.resource_version, entry.resource_version])
-                        except Exception:  # noqa: BLE001
-                            pass
-                        super().__setitem__(key, entry)
-
-                if isinstance(raw, dict):
-                    saved_dict = raw
-                    setattr(r.cache, "__CACHE", Watched(raw))
-            except Exception:  # noqa: BLE001
-                saved_dict = None
             try:
                 await asyncio.gather(*[launch(i, d, op) for i, (d, op) in enumerate(case["round"])])
                 for _ in range(60):                     # let every background re-preparer finish
@@ -775,12 +748,8 @@ def run_concurrent(case):
                         if sd is not None:
                             final[(cls, name)] = (sd.resource_version, r.ident(sd.resource))
             finally:
-                if saved_dict is not None:
-                    cur = getattr(r.cache, "__CACHE")
-                    saved_dict.clear()
-                    saved_dict.update(cur)
-                    setattr(r.cache, "__CACHE", saved_dict)
-            return events, final, list(r.spec_given), [list(x) for x in r.log], stale
+                pass
+            return events, final, list(r.spec_given), [list(x) for x in r.log], list(r.background)
         finally:
             r.close()
 
@@ -811,7 +780,7 @@ def strip_spec(spec):
     return {k: v for k, v in spec.items() if k != "scribble"} if isinstance(spec, dict) else spec
 
 
-def oracle_concurrent(case, events, final, spec_given, log, stale=()):
+def oracle_concurrent(case, events, final, spec_given, log, background=()):
     """The final cache contents must be what SOME sequential order of the round's operations gives, among the
     orders that respect real time (an operation that finished before another started comes first).  Compared per
     key: present?, version, and the spec the cached result was prepared from."""
@@ -844,9 +813,7 @@ def oracle_concurrent(case, events, final, spec_given, log, stale=()):
         vers = {st[key][0] if key in st else None for st in allowed}
         got = seen[key][0] if key in seen else None
         if got not in vers:
-            if False:
-                pass
-            elif got is None:
+            if got is None:
                 sig = "concurrent: newer entry removed"
             elif None in vers and len(vers) == 1:
                 sig = "concurrent: deleted entry came back"
@@ -857,12 +824,12 @@ def oracle_concurrent(case, events, final, spec_given, log, stale=()):
             break
     else:
         sig = "concurrent: result not prepared from the cached version's spec"
-    if stale:
-        # root cause seen while it happened: attribute the wrong final state to it
-        sig = "concurrent: a background re-prepare wrote its stale entry over a newer offered version"
-        k0, was, now = stale[0]
-        what = (f"{k0} had version {was}; then a background re-preparer stored its result under version "
-                f"{now} (the entry it had read before awaiting the preparer); " + what)
+    # diagnostics only (no effect on the verdict): was the offending result stored by a background re-preparer?
+    for key, (ver, ident) in final.items():
+        if (key in seen and all(st.get(key) != seen[key] for st in allowed) and ident[0] in ("ok", "err")
+                and ident[1] < len(background) and background[ident[1]]):
+            what += f" [the result now cached for {key} was made by a background re-prepare]"
+            break
     return (sig, what, {"final": {str(k): v for k, v in seen.items()},
                         "allowed": [{str(k): v for k, v in st.items()} for st in allowed]})
 
@@ -893,7 +860,7 @@ def handle_concurrent(ctx: Ctx, case, bucket):
     ctx.count(f"hist:{bucket}")
 
 
-def conc_case(delays, sleeps, dep_first=True, guarded=True, vers=("17", "170")):
+def conc_case(delays, sleeps, dep_first=True, guarded=True, vers=("17", "170"), reoffer=True, delete=True):
     """a resource x that watches d; then, overlapping: d changes (x's re-preparer starts a suspending prepare),
     x is deleted naming its old version, and x is offered at a new version"""
     x, d = NAMES[0], NAMES[2]
@@ -901,9 +868,12 @@ def conc_case(delays, sleeps, dep_first=True, guarded=True, vers=("17", "170")):
     setup = [["offer", 0, meta(d, v1), {"mode": "ok", "tag": 1}, None],
              ["offer", 0, meta(x, v1), {"mode": "ok", "tag": 2, "deps": [[0, d]], "sleep": sleeps[0]}, None],
              ["yield", 12]]
-    rnd = [[delays[0], ["offer", 0, meta(d, v2), {"mode": "ok", "tag": 3}, None]],
-           [delays[1], ["delete", 0, x, v1 if guarded else None]],
-           [delays[2], ["offer", 0, meta(x, v2), {"mode": "ok", "tag": 4, "deps": [[0, d]], "sleep": sleeps[1]}, None]]]
+    rnd = [[delays[0], ["offer", 0, meta(d, v2), {"mode": "ok", "tag": 3}, None]]]
+    if delete:       # (without re-offer: a delete during the suspended re-prepare must not be undone by it)
+        rnd.append([delays[1], ["delete", 0, x, v1 if guarded else None]])
+    if reoffer:      # (without delete: the re-prepare must not overwrite the newer offer)
+        rnd.append([delays[2], ["offer", 0, meta(x, v2),
+                                {"mode": "ok", "tag": 4, "deps": [[0, d]], "sleep": sleeps[1]}, None]])
     return {"conc": True, "setup": setup, "round": rnd}
 
 
@@ -1003,6 +973,11 @@ def run(ctx: Ctx):
     for delays in itertools.product(grid, repeat=3):
         for sleeps in ([2, 1], [4, 0]) if ctx.quick() else ([2, 1], [4, 0], [1, 3], [6, 2]):
             handle_concurrent(ctx, conc_case(delays, sleeps, guarded=(sum(delays) % 4 != 3)), "concurrent-grid")
+    for d0, d1 in itertools.product(grid + [8, 10], repeat=2):
+        for sl in (2, 4, 6):
+            handle_concurrent(ctx, conc_case([d0, d1, d1], [sl, 0], reoffer=False, guarded=(d1 % 2 == 0)),
+                              "concurrent-delete-during-reprepare")
+            handle_concurrent(ctx, conc_case([d0, d1, d1], [sl, 0], delete=False), "concurrent-offer-during-reprepare")
     for _ in range(400 if ctx.quick() else 6000):
         handle_concurrent(ctx, rand_conc_case(ctx.rng), "concurrent-random")
     # dependency streams (oracle only)
